@@ -7,7 +7,7 @@ import ast
 from ..core import Run
 from ..effects import Effects
 from ..indexing import ack_before_writeback, commit_sites, hashmap_readers, page_then_hashmap
-from ..indexscen import reindex_rules, writeback_rules
+from ..indexscen import create_rules, reindex_rules, writeback_rules
 from ..paths import enum_paths, first_index, is_call_to
 from ..pymodel import PyModel
 
@@ -28,7 +28,7 @@ def check(run: Run) -> None:
     run.rule("C13.R6", "redo is idempotent: every processed page is removed from the index before it is added (also pages that look new), and only reindex depends on the content of file_hash.json")
     reindex_rules(run, model, dict(order="C13.R6", ack="C13.R2", recover="C13.R6"))
     writeback_rules(run, model, "C13.R2")
-    hashmap_readers(run, model, "C13.R6")
+    create_rules(run, model, "C13.R6")
     ack_before_writeback(run, model, eff, "C13.R3")
     page_then_hashmap(run, model, eff, "C13.R4")
     commit_sites(run, model, eff, "C13.R5")
